@@ -125,7 +125,10 @@ pub fn run_one(sc: &Value) -> Vec<Value> {
         ctxs.push(f.id);
     }
 
-    verif::set_gates(&["w", "r"]);
+    let stress = sc["stress"].as_bool().unwrap_or(false);
+    if !stress {
+        verif::set_gates(&["w", "r"]);
+    }
 
     // writers
     let mut whandles = vec![];
@@ -155,8 +158,10 @@ pub fn run_one(sc: &Value) -> Vec<Value> {
             verif::finish(Some(&wname));
         }));
     }
-    for w in plans.keys() {
-        let _ = verif::settle(w, T);
+    if !stress {
+        for w in plans.keys() {
+            let _ = verif::settle(w, T);
+        }
     }
 
     // reader options
@@ -313,6 +318,33 @@ pub fn run_one(sc: &Value) -> Vec<Value> {
         }
     };
 
+    // (0) hook-free stress: nobody is held at a gate; the consumer and the poller race the writers
+    if stress {
+        let t_end = std::time::Instant::now() + Duration::from_secs(60);
+        let delay = sc["read_after"].as_u64().unwrap_or(0);
+        let mut n = 0u64;
+        loop {
+            n += 1;
+            if !reader_started && n > delay {
+                reader_started = true;
+                start_reader(&mut rx);
+            }
+            let mut k = 0;
+            while k < 50 && consume(&mut rx, &mut closed, &store) {
+                k += 1;
+            }
+            if do_poll && n % 3 == 0 {
+                poll(&mut poll_last, &store);
+            }
+            let done = whandles.iter().all(|h| h.is_finished());
+            if (done && k == 0 && reader_started) || std::time::Instant::now() > t_end {
+                break;
+            }
+            if k == 0 {
+                std::thread::sleep(Duration::from_micros(300));
+            }
+        }
+    }
     // (1) the given schedule
     if let Some(s) = sc["sched"].as_array() {
         for a in s {
